@@ -34,18 +34,37 @@ type Hooks struct {
 	Interp parsley.Interpreter
 	// NoMemo builds every nonterminal without Memoize (plain recursive descent)
 	NoMemo bool
+	// Leaf wraps the raw terminal parser of a rune expression (below Memoize and Around)
+	Leaf func(e *Expr, p parsley.Parser) parsley.Parser
+	// ShareLeaves: one terminal.Rune value per character for the whole grammar, the way a user defines a token once
+	// and mentions it in several rules
+	ShareLeaves bool
 }
 
 type Built struct {
-	G   *Grammar
-	NTs []parser.Func
+	G      *Grammar
+	NTs    []parser.Func
+	leaves map[int]parsley.Parser
 }
 
 func (b *Built) build(e *Expr, h *Hooks) parsley.Parser {
 	var p parsley.Parser
 	switch e.Op {
 	case OpRune:
-		p = terminal.Rune(rune(e.C))
+		if h.ShareLeaves {
+			if b.leaves == nil {
+				b.leaves = map[int]parsley.Parser{}
+			}
+			if b.leaves[int(e.C)] == nil {
+				b.leaves[int(e.C)] = terminal.Rune(rune(e.C))
+			}
+			p = b.leaves[int(e.C)]
+		} else {
+			p = terminal.Rune(rune(e.C))
+		}
+		if h.Leaf != nil {
+			p = h.Leaf(e, p)
+		}
 	case OpEmpty:
 		p = parser.Empty()
 	case OpEnd:
